@@ -217,6 +217,32 @@ func runOp(c *kit.Ctx, w *world, idx int) {
 			fresh = false
 		}
 	}
+	cachesFresh, cachesComputed := w.cachesFresh()
+	preUnset, postSet := 0, 0
+	for k, v := range pre {
+		if strings.HasSuffix(k, cacheSuffix) && v == cacheUnset {
+			preUnset++
+			if post[k] != cacheUnset {
+				postSet++
+			}
+		}
+	}
+	if postSet > 0 {
+		c.Count("precompute:first-evaluated-by-" + op.Kind)
+	}
+	overrideTypes := 0
+	for _, it := range w.j.Catalog {
+		for _, ov := range it.Overrides {
+			if ov.Available && (ov.CPU > 0 || ov.MemMi > 0 || ov.Ext > 0) {
+				overrideTypes++
+				break
+			}
+		}
+	}
+	if postSet > 0 && overrideTypes > 0 {
+		c.Count("precompute:with-available-capacity-override")
+	}
+	_ = cachesComputed
 	if len(results.NewNodeClaims) > 0 {
 		c.Count("new-nodeclaims:yes")
 	}
@@ -296,8 +322,8 @@ func runOp(c *kit.Ctx, w *world, idx int) {
 		window = 10 * time.Second
 	}
 	kind := lo.Ternary(op.Kind == "sim", "KSim", "KProv")
-	term := fmt.Sprintf("CaseOp (mkObs %s %s %s %s %s %s %s %s %s %s %s %s %s)", kind, outcome, kit.GZ(nWrites), kit.GList(classes), kit.GStrs(writtenL),
-		kit.GBool(placed > 0), kit.GBool(fresh), kit.GZ(tz(now)), kit.GZ(int64(window)), kit.GList(nomRows), kit.GList(rej), resultMark, kit.GList(bookRows))
+	term := fmt.Sprintf("CaseOp (mkObs %s %s %s %s %s %s %s %s %s %s %s %s %s %s)", kind, outcome, kit.GZ(nWrites), kit.GList(classes), kit.GStrs(writtenL),
+		kit.GBool(placed > 0), kit.GBool(fresh), kit.GBool(cachesFresh), kit.GZ(tz(now)), kit.GZ(int64(window)), kit.GList(nomRows), kit.GList(rej), resultMark, kit.GList(bookRows))
 
 	jc := jCase{Kind: "op", World: w.j, OpIndex: idx, Outcome: outcome, Changed: details, Writes: nWrites, Placed: placed,
 		NewNC: len(results.NewNodeClaims), PodErrs: len(results.PodErrors), Rejected: rejNames}
@@ -431,6 +457,7 @@ func main() {
 		"scheduling.Results.Record / Cluster.NominateNodeForPod vs Model.nominate",
 		"Cluster.MarkPodSchedulingDecisions as called by SimulateScheduling/GetPendingPods/Schedule vs Model.apply_marks",
 		"new NodeClaims carry instance-type slices distinct from the provider's vs Model (filter allocates)",
+		"InstanceType.precompute: computed allocatable groups own their maps (share nothing with Capacity/Overhead/override maps) vs Model.precompute (allocates)",
 	}
 	worlds := 420
 	if c.Thorough() {
